@@ -767,7 +767,8 @@ class Array:
     def _eq_ne(self, op, other: Any) -> Array:
         if isinstance(other, (int, float, str, Bits)):
             return self._apply_op_to_all_elements(op, other, is_comparison=True)
-        other = self.__class__(self.dtype, other)
+        if not isinstance(other, Array):
+            other = self.__class__(self.dtype, other)
         return self._apply_op_between_arrays(op, other, is_comparison=True)
 
     def __eq__(self, other: Any) -> Array:
